@@ -74,11 +74,11 @@ PROPS = {
                         "a registered consumer URL contains no '#' (a fragment would swallow the query); URLs with an own query are covered by C04_redirect_url_with_query under the stated hypothesis that they do not themselves carry a SAMLResponse / RelayState / SigAlg / Signature parameter"],
     },
     "C05": {
-        "modules": ["SamlModel.Props.C05", "SamlModel.Props.SendBack", "SamlModel.Props.SsoGen", "SamlModel.Props.SsoProps", "SamlModel.Props.Stateless"],
-        "translated": ["IdentityProvider_ssoHandleFunc", "getAuthRequestFromRequest", "signaturePostProvided", "signaturePostVerificationNecessary", "signatureRedirectVerificationNecessary",
+        "modules": ["SamlModel.Props.C05", "SamlModel.Props.SendBack", "SamlModel.Props.SsoGen", "SamlModel.Props.RedirectSigGen", "SamlModel.Props.SsoProps", "SamlModel.Props.Stateless"],
+        "translated": ["ServiceProvider_ValidateRedirectSignature", "IdentityProvider_ssoHandleFunc", "getAuthRequestFromRequest", "signaturePostProvided", "signaturePostVerificationNecessary", "signatureRedirectVerificationNecessary",
                        "verifyRedirectSignature", "verifyPostSignature", "certificateCheckNecessary", "checkCertificate", "isXSBooleanTrue"],
         "trusted_base": COMMON_TRUST + SSO_TRUST + [
-            "RSA / XML-DSig validation are oracles: ServiceProvider.ValidateRedirectSignature / ValidatePostSignature (their octet reconstruction, goxmldsig, etree) are sampled by the harness with real keys, not proved; signature-wrapping inside goxmldsig/etree vs encoding/xml is outside the theorem",
+            "ServiceProvider.ValidateRedirectSignature is translated (RedirectSigGen.validateRedirect_spec: it hands exactly `octets request relayState sigAlg`, the base64-decoded Signature and the registered key to signature.ValidateRedirect; octets_injective: the octets determine the three values; C05_redirect_signature_covers_what_is_acted_on combines it with the handler theorems under the stated link hypothesis that the storage's service providers use the library's method). RSA / DSA verification (signature.ValidateRedirect) and XML-DSig validation (ValidatePostSignature: goxmldsig, etree) are oracles, sampled by the harness with real keys, not proved; signature-wrapping inside goxmldsig/etree vs encoding/xml is outside the theorem",
         ],
         "assumptions": ["Form.WF: the binding decision of getAuthRequestFromRequest is POST or Redirect (fingerprinted function; checked on every case by the sso correspondence)"],
     },
@@ -221,8 +221,8 @@ PROPS = {
         "assumptions": ["SpWF: a registered service provider has metadata with an SPSSODescriptor (NewServiceProvider refuses others); storage returns non-nil objects with nil errors"],
     },
     "C07": {
-        "modules": ["SamlModel.Props.C07", "SamlModel.Props.SendBack", "SamlModel.Props.SsoGen", "SamlModel.Props.SsoProps", "SamlModel.Props.Stateless"],
-        "translated": ["IdentityProvider_ssoHandleFunc", "getAuthRequestFromRequest", "signatureRedirectVerificationNecessary", "signaturePostVerificationNecessary", "verifyRedirectSignature", "verifyPostSignature",
+        "modules": ["SamlModel.Props.C07", "SamlModel.Props.SendBack", "SamlModel.Props.SsoGen", "SamlModel.Props.RedirectSigGen", "SamlModel.Props.SsoProps", "SamlModel.Props.Stateless"],
+        "translated": ["ServiceProvider_ValidateRedirectSignature", "IdentityProvider_ssoHandleFunc", "getAuthRequestFromRequest", "signatureRedirectVerificationNecessary", "signaturePostVerificationNecessary", "verifyRedirectSignature", "verifyPostSignature",
                        "certificateCheckNecessary", "checkCertificate", "checkRequestRequiredContent", "checkIfRequestTimeIsStillValid",
                        "verifyRequestDestinationOfAuthRequest", "verifyRequestDestinationOfAttrQuery", "GetAcsUrlAndBindingForResponse"],
         "trusted_base": COMMON_TRUST + SSO_TRUST + [
